@@ -28,8 +28,18 @@ MANIFEST = {
             "once the carrier has delivered the stream and closed; write_total with the side condition "
             "MAX_FRAME_LEN + 16 <= snow MAXMSGLEN decided on the regenerated constants; write_read_roundtrip: after a "
             "successful poll_flush and complete delivery the reader obtains exactly the wpos bytes accepted by "
-            "poll_write. Plus a seeded correspondence run of a real NoiseSocket pair (real handshake, scripted "
-            "in-memory carrier with chunking, Pending, faults and frame-level tampering, re-polls after read errors) "
+            "poll_write; flush_delivers_everything_accepted / close_delivers_everything_accepted (teardown under "
+            "back-pressure): poll_flush = drain loop (ready! on every inner poll_write) then the carrier's poll_flush, "
+            "poll_close = ready!(poll_flush)? then the carrier's poll_close; for every schedule of carrier answers "
+            "(partial writes, Pending, Ok(0), errors of poll_write; Pending/errors of the inner poll_flush/poll_close) "
+            "and any number of polls: Ready(Ok) means the carrier holds the complete wire image of ALL bytes poll_write "
+            "ever accepted, the encrypt buffer is empty, the carrier flushed after its last write (and is closed, for "
+            "close) and a reader fed with these bytes returns exactly the accepted plaintext; the carrier is closed only "
+            "by a poll_close that returns Ready(Ok); Ready(Ok) comes within one poll per scripted answer plus one when "
+            "the carrier never fails; write_pending_registered: a Pending of poll_write/poll_flush/poll_close is a "
+            "Pending of the carrier in that very call (no lost wake-up). Plus a seeded correspondence run of a real NoiseSocket pair (real handshake, scripted "
+            "in-memory carrier with chunking, Pending with stored wakers, faults and frame-level tampering, re-polls after "
+            "read errors, flush/close polled at any point of a write history while the carrier stalls) "
             "against the model, and a property-level oracle.",
     "note": "Trusted: Lean kernel; axioms propext/Classical.choice/Quot.sound; the hand-written model and its tie "
             "(sampled differential runs through adapter src/verif/c02.rs); ChaCha20-Poly1305/snow idealised as an AEAD "
@@ -55,11 +65,18 @@ RULE = ("seeded op sequences on a real NoiseSocket pair and on the Lean model: c
         "{1,2,15,16,17,1024,65517..65522,131036..131042,200000}; reader buffers {0,1,2,16,17,1024,65503,65519,65536,131072}; "
         "carrier deliveries in random chunks incl. 1 byte, scripted per-inner-poll chunk caps, Pending/EOF/error injection on "
         "both directions, write back-pressure; single-frame flip/truncate/duplicate/drop/swap of ciphertext frames; final "
-        "drain (flush, deliver all, close, read until error). A case is non-trivial if at least two reads returned data; "
+        "drain (flush, deliver all, close, read until error); teardown family (quick: 60 cases per seed): accepted but "
+        "unflushed data, then close/flush polled 1-3 times under scripted stalls of the inner poll_write (Pending, partial "
+        "writes, 12 % with Ok(0)/Err) and of the inner poll_flush/poll_close, writes between polls, end of the stall, final "
+        "close, drain through the reader without `carrier close`; reader-EOF family (quick: 30 per seed): carrier closes on a "
+        "frame boundary / 1, 2, 3, 17, 18 bytes into a frame / mid-body / one byte before its end while the reader, with "
+        "buffers {1,3,16,30,1000,65519,131072}, holds a partially consumed decrypted frame; 40 % with late data after the "
+        "EOF. A case is non-trivial if at least two reads returned data; "
         "distinct = distinct (ops, observations) transcripts by SHA-256")
 TRUSTED_BASE = ["Lean 4.33 kernel", "axioms: propext, Classical.choice, Quot.sound only",
                 "hand-written model Model/Noise/Transport.lean tied to crypto/noise/mod.rs by this correspondence run",
-                "adapter /repo/src/verif/c02.rs (scripted carrier, frame bookkeeping), harness, verif.py, checks/c02.py",
+                "adapter /repo/src/verif/c02.rs (scripted carrier, frame bookkeeping incl. the `short`/`unflushed`/`open` "
+                "report after a successful flush/close and the waker registration flag), harness, verif.py, checks/c02.py",
                 "snow TransportState and ChaCha20-Poly1305 idealised: AEAD with per-direction nonce counter, |enc n p| = |p| + 16, "
                 "dec n c = some p <-> c = enc n p, injective in (n, p), only the writer's frames decrypt (hypotheses of the "
                 "theorems, proved for the free term model)",
@@ -67,7 +84,11 @@ TRUSTED_BASE = ["Lean 4.33 kernel", "axioms: propext, Classical.choice, Quot.sou
 ASSUMPTIONS = ["F >= 1 and W >= 1 (F = 0 fails every read with UnexpectedEof, W = 0 never accepts a write)",
                "callers stop writing after a write/flush error (the adapter answers `fused`); the reader may be polled again "
                "after an error (modelled, compared, checked by the oracle: never a panic, never altered plaintext)",
-               "the inner AsyncRead never reports more bytes than the buffer it was given"]
+               "the inner AsyncRead never reports more bytes than the buffer it was given",
+               "callers do not write, flush or close again after a successful close (the adapter answers `closed`); a "
+               "Pending close may be followed by further writes (modelled, compared)",
+               "the carrier's own poll_flush / poll_close return Ready(Ok) unless scripted otherwise; bytes the carrier "
+               "accepted before its successful poll_close are still delivered, then the reader's carrier reports Ok(0)"]
 KEEP_PREFIX = 1
 
 MAXF_NEIGHBOURHOOD = [65517, 65518, 65519, 65520, 65521, 65522]
